@@ -14,6 +14,9 @@ Members3 == {1, 2, 3}
 MembersOf3 == [w \in {"w1", "w2"} |-> IF w = "w1" THEN {1, 2, 3} ELSE {2, 3}]
 Threshold3 == [w \in {"w1", "w2"} |-> 2]
 Leader3(w, k) == IF w = "w1" THEN {(k % 3) + 1} ELSE {2 + (k % 2)}
+MembersOf3b == [w \in {"w1", "w2"} |-> IF w = "w1" THEN {1, 2, 3} ELSE {3}]
+Threshold3b == [w \in {"w1", "w2"} |-> IF w = "w1" THEN 2 ELSE 1]
+Leader3b(w, k) == IF w = "w1" THEN {(k % 3) + 1} ELSE {3}
 LeaderAny(w, k) == MembersOf[w]
 
 \* heartbeat is drawn for w1 in the first window only / in every window / never
